@@ -35,6 +35,8 @@ impl SharedHistory {
 
     /// Provides access to the underlying history.
     pub fn read(&self) -> impl ops::Deref<Target = PayloadHistory> + '_ {
+        #[cfg(routinator_verif)]
+        crate::verif::point("history.read");
         self.0.read().expect("Payload history lock poisoned")
     }
 
@@ -43,6 +45,8 @@ impl SharedHistory {
     /// This is private because access is only through dedicated update
     /// methods.
     fn write(&self) -> impl ops::DerefMut<Target = PayloadHistory> + '_ {
+        #[cfg(routinator_verif)]
+        crate::verif::point("history.write");
         self.0.write().expect("Payload history lock poisoned")
     }
 
@@ -107,6 +111,8 @@ impl SharedHistory {
     pub fn mark_update_done(&self) {
         let mut locked = self.write();
         let now = Utc::now();
+        #[cfg(routinator_verif)]
+        let now = crate::verif::now_override().unwrap_or(now);
         locked.last_update_done = Some(now);
         locked.last_update_duration = Some(
             now.signed_duration_since(locked.last_update_start)
